@@ -117,6 +117,7 @@ func (srv *Session) consumeSingleCommand(ctx context.Context, reader *buffer.Rea
 		verifPoint("cmd.refused", conn)
 		return nil
 	}
+	verifPoint("cmd.admitted", conn)
 
 	srv.logger.Debug("<- incoming command", slog.Int("length", length), slog.String("type", t.String()))
 	err = srv.handleCommand(ctx, conn, t, reader, writer)
